@@ -443,7 +443,7 @@ var c11Names = []c11NameSet{
 
 // C11 part (i): the if-feature evaluator. Parts (ii)/(iii) are in c11_guard.go / c11_deviate.go.
 func C11(ctx *core.Ctx) error {
-	ctx.Imports = "Feature.IfFeature Check.C11Check"
+	ctx.Imports = "Feature.IfFeature Feature.Guard Check.C11Check"
 	ctx.ShardMax = 120000
 	ctx.Rule = "evaluator: every token sequence of length 0..L over {a,b,c,not,and,or,(,)} (L=5 quick, 6 thorough) and every grammatical sequence up to G tokens (G=7 quick, 9 thorough), each under all 8 assignments of a,b,c, through meta.IfFeature.Evaluate; random written expressions (depth<=6, random separators blank/tab/line break, redundant parentheses, either nesting) under all assignments of their 3-4 features; malformed texts (token deletion/insertion/duplication, byte soup, keywords touching parentheses). distinct = by SHA-256 of the case term; non-trivial = table with >1 sequence, or a single text"
 	r := gen.New(ctx.Seed)
@@ -570,5 +570,7 @@ func C11(ctx *core.Ctx) error {
 	if c11Timeouts > 0 {
 		ctx.Extra["timeouts"] = c11Timeouts
 	}
+	// part (ii): guard presence through the loader
+	c11GuardCases(ctx, r.Fork(13))
 	return nil
 }
